@@ -23,6 +23,7 @@ prop(
         "more-specific / disjoint / other-family, expected decision) for files with a non-empty own-kind list, (single filter class) and (JSON shape class); "
         "evaluations counts single oracle comparisons."
         " JSON transports of every generated file besides from_str / from_reader: the same document with string contents (and member names) written as JSON escapes (\\/ and \\uXXXX, which no deserialiser can lend out of its input), serde_json::to_value -> from_value, and the harness token format read back with borrowed, transient and owned strings; each must give an equal file."
+        "iter_payload() is also advanced with nth / skip / step_by / last / count and alternating next / nth for every distance up to the length plus one and must yield what plain stepping yields; size_hint must not exclude the truth. "
     ),
     assumptions=[
         "key identifiers are plain 20-octet values (no hashing); router key info is opaque octets",
